@@ -547,7 +547,6 @@ UNSUPPORTED_REFACTORS = {
     "small-agents-4": "random-agent draws through a tuple-returning sampler (same class as feat-agents-3)",
     "small-book-5": "`!matches!(status, Status::New)` as the place_order guard and `vol != 0 && best <= price` as the loop guard: the status-guard anchor reads a comparison, not a `matches!` discriminant test",
     "small-env-1": "the instruction is queued inside `create_order(..).map(|id| { push; id })`: the submission rules read the push in the function body, not in a combinator closure",
-    "small-market-5": "`From<Side> for bool` as `!matches!(side, Side::Ask)` and the level-drop test spelled as an early return on `count > 0`: table / drop-condition idioms",
     "feat-python-3": "the Python classes keep their own order count and refuse unknown ids before forwarding: forwarding becomes conditional on "
                      "wrapper-side bookkeeping which no rule proves equal to the core's order table (it also changes behaviour for invalid ids)",
     "feat-python-4": "optional n_levels argument: the array length becomes a runtime value, the array model needs a constant level count",
@@ -629,3 +628,8 @@ CASES.append(dict(kind="mutant", name="c14-array-map-wrong-side", props=["C14", 
 _SB3 = _os2.path.join(_os2.path.dirname(_os2.path.abspath(__file__)), "refactors", "small-book-3.diff")
 CASES.append(dict(kind="mutant", name="c07-loader-index-past-end", props=["C07"], patch=_SB3, expect="load-abort-free",
                   edits=[(OB, "for i in 0..state.orders.len() {", "for i in 0..state.orders.len() + 1 {")]))
+
+# `From<Side> for bool` spelled with matches! (small-market-5's idiom), inverted
+_SM5 = _os2.path.join(_os2.path.dirname(_os2.path.abspath(__file__)), "refactors", "small-market-5.diff")
+CASES.append(dict(kind="mutant", name="c18-side-to-bool-inverted-matches", props=["C18"], patch=_SM5, expect="side",
+                  edits=[("crates/order_book/src/types.rs", "!matches!(side, Side::Ask)", "!matches!(side, Side::Bid)")]))
